@@ -813,6 +813,8 @@ func checkC20(w *World, r *Report) {
 	ruleDivisorGuards(w, r, "C20")
 	ruleTimeConservation(w, r, "C20")
 	ruleProxyForward(w, r, "C20")
+	ruleFormulas(w, r, "C20")
+	ruleCounterQuantities(w, r, "C20")
 	ruleSamplesReach(w, r, "C20")
 	ruleUnwrap(w, r, "C20")
 	ruleWrappersUnwrap(w, r, "C20")
